@@ -10,7 +10,7 @@ TRUST = ("Trusted base: TLC 1.8; the harness's raw decoder (field extraction + R
 CLAIMED = {
  "C01": ("model_checking", "5 C01", "TLC trace validation of real executions against the CfbTree abstract model (TLA+); scripts from MC_Tree transition coverage + seeded random drivers",
          "Every result, listing, entry and stream byte of every generated history is compared by TLC with the total abstract model; the MC_Tree graph makes (state x operation) coverage systematic."),
- "C02": ("model_checking", "5 C02", "TLC trace validation: strict and permissive reopen dumps of the un-flushed bytes after every operation must equal the CfbTree state; forked continuation on the reopened file",
+ "C02": ("model_checking", "5 C02", "TLC trace validation: strict and permissive reopen dumps of the un-flushed bytes after every operation must equal the CfbTree state; forked continuation on the reopened file; design level: InvOpen of MC_Phys (every image of the write-path model is accepted by the open-path model CfbOpen) and InvThrough of MC_Fault (the file decoded from the actual writes holds exactly the in-memory tables); fidelity: Trace_Open",
          "Crash points = every operation boundary of every history, both modes, both versions, including directory/FAT/MiniFAT (thorough: DIFAT) growth."),
  "C03": ("model_checking", "5 C03", "WF(img) rules R1-R8 written in TLA+ (CfbImage) evaluated by TLC on an independent raw decode of every produced image; the same rules are invariants of MC_Phys (CfbPhys, the TLA+ transcription of the allocator / directory / write paths, exhaustive at tiny geometry) and Trace_Phys binds CfbPhys to the code by predicting every table of every recorded image",
          "The judge shares no code with the library; it re-derives every chain from fat[]/minifat[] and checks ownership, leaks, chain lengths, tree order, blank entries."),
@@ -26,7 +26,7 @@ CLAIMED = {
          "Exhaustive at model geometry for several buffer sizes; real-scale replays under six buffer sizes x two versions with extreme seek arguments."),
  "C12": ("fault_enumeration", "5 C12", "every k-th backend read/seek fails; TLC (Trace_Handle, ro_faults mode) requires Err or the fault-free result and correct bytes after retry; CfbHandle model checked with one injected fault",
          "Every single fault position of the workloads (pairs in thorough); design-level model covers all interleavings of one fault with the cache protocol."),
- "C13": ("fault_enumeration", "5 C13", "every k-th backend write/seek/flush fails; TLC (Trace_Handle, rw_faults mode) requires the call to report the error, no later panic, and Ok flush => fresh-handle read-back equals accepted writes; CfbHandle FlushDurable model checked with faults",
+ "C13": ("fault_enumeration", "5 C13", "design level: MC_Fault model checks CfbFault (the write paths write by write, memory / file split, a failing write, retry, another operation in between) at tiny geometry, and CfbHandle (FlushDurable) with faults; conformance: every k-th backend write/seek/flush of the workloads fails (every position of the short first-use / growth / removal / two-handle workloads); TLC (Trace_Handle, rw_faults mode) requires the call to report the error, no later panic, Ok flush => the bytes are read back by a fresh handle AND from a reopened copy of the file once every failed call has been retried, the backend's flush is reached, no untouched stream is lost; fidelity: Trace_Writes compares CfbFault's predicted order of table writes with the recorded write calls",
          "Every single fault position of the workloads (pairs in thorough) with retry of the failed call."),
  "C15": ("model_checking", "5 C15", "TLC trace validation of net-zero cycles (checked on the model) with a NoGrowth assertion on logged file lengths; NoGrowth is an invariant of MC_Phys in cycle mode (CfbPhys at tiny geometry), bound to the code by Trace_Phys",
          "Cycle templates x sizes x mini-stream fill levels at and around sector multiples."),
@@ -42,7 +42,7 @@ CLAIMED = {
          "The structured part of 'any byte string' (all single field corruptions x value classes, thorough: sampled pairs) is enumerated from the specification; unstructured bytes are a seeded supplement; termination, panics and memory are observed by monitors."),
  "C11": ("exploration", "5 C11", "Gen_Corrupt (TLA+) corruptions that survive permissive open x mutation scripts, under catch_unwind and a per-case watchdog; Trace_Robust states the verdict; coverage classified by corrupted site",
          "Every single field corruption x scripts covering all mutation steps (thorough: every step singly and sampled ordered pairs, sampled pairs of corruptions)."),
- "C16": ("model_checking", "5 C16", "part 1: strict Ok => permissive Ok with the identical dump on every image (Trace_File / Trace_Robust); part 2: Gen_Deviate (TLA+) injects every documented tolerated deviation at every applicable place of TLC-generated layouts, singly and in independent pairs; Trace_File requires permissive = undamaged content and strict = rejected",
+ "C16": ("model_checking", "5 C16", "design level: InvC16 of MC_Phys (CfbOpen = transcription of open_internal and the validators, on every single-value damage of every reachable tiny-geometry image: strict accepts => permissive accepts with the same tables); fidelity: Trace_Open (model verdict vs library verdict on every layout, deviation, corruption); part 1: strict Ok => permissive Ok with the identical dump on every image (Trace_File / Trace_Robust); part 2: Gen_Deviate (TLA+) injects every documented tolerated deviation at every applicable place of TLC-generated layouts, singly and in independent pairs; Trace_File requires permissive = undamaged content and strict = rejected",
          "Deviation x place coverage comes from the specification; expectations are stated in the trace validator, not in the harness."),
 }
 
